@@ -135,6 +135,7 @@ fn main() {
     let cmd = args.get(1).map(|s| s.as_str()).unwrap_or("");
     let code = match cmd {
         "solve-one" => engine_pipeline::solve_one_main(),
+        "solve-one-internal" => engine_pipeline::solve_one_internal_main(),
         "c15-opt" => engine_transition::c15_opt_main(args.get(2).map(|s| s.as_str()).unwrap_or("quick")),
         "worker" => {
             // worker <prop> <tier> <seed> <widx> <cases>
